@@ -131,6 +131,20 @@ Theorem C34_stable : forall (f_rev f_obj f_miss : bool) attr_ent attr_rev attr_h
 Proof. exact stable. Qed.
 Print Assumptions C34_stable.
 
+(* ... and across sessions: however the previous session of the thread ended (commit, or rollback after an exception / a failed
+   commit), the first check of the next session is answered from what the group / role / label providers say at that moment -
+   no answer of an earlier session's providers survives (where the caches are cleared is re-read from _commit_or_rollback) *)
+Theorem C34_fresh_after_session_end : forall attr_ent attr_rev attr_hidden obj_ent (rules : nat -> nat -> list rule)
+    (groups_at : nat -> list nat) (roles_at labels_at : nat -> nat -> list nat) committed c t p x,
+  snd (check rev_loop_iterates_reverse_rules obj_exclusion_tests_entity missing_reverse_rules_returns_false
+             attr_ent attr_rev attr_hidden obj_ent rules groups_at roles_at labels_at
+             (end_session provider_caches_cleared_on_commit provider_caches_cleared_on_rollback committed c) t p x)
+  = answer rev_loop_iterates_reverse_rules obj_exclusion_tests_entity missing_reverse_rules_returns_false
+           attr_ent attr_rev attr_hidden obj_ent rules
+           (groups_at t) (match x with TObj o => roles_at t o | _ => [] end) (match x with TObj o => labels_at t o | _ => [] end) p x.
+Proof. exact fresh_after_session_end_now. Qed.
+Print Assumptions C34_fresh_after_session_end.
+
 (* not vacuous: a rule for group 1 with role 1 and label 1 grants exactly the object that carries them *)
 Example C34_nonvacuous :
   let rules := fun e p => if (e =? 0) && (p =? 0) then [mkrule [0; 1] [1] [1] [] [2]] else [] in
